@@ -204,3 +204,49 @@ def within(entry, target, scale, tol):
     if dmin > tl[1]:
         return False
     return None
+
+
+# ---- small helpers on intervals of Fractions (lo, hi) used by the cell-wise accuracy proofs
+def fi(x):
+    x = Fraction(x)
+    return (x, x)
+
+
+def fadd(a, b):
+    return (a[0] + b[0], a[1] + b[1])
+
+
+def fsub(a, b):
+    return (a[0] - b[1], a[1] - b[0])
+
+
+def fmul(a, b):
+    cs = (a[0] * b[0], a[0] * b[1], a[1] * b[0], a[1] * b[1])
+    return (min(cs), max(cs))
+
+
+def fscale(a, k):
+    k = Fraction(k)
+    return (a[0] * k, a[1] * k) if k >= 0 else (a[1] * k, a[0] * k)
+
+
+def fdiv(a, b):
+    if b[0] <= 0 <= b[1]:
+        raise ZeroDivisionError
+    cs = (a[0] / b[0], a[0] / b[1], a[1] / b[0], a[1] / b[1])
+    return (min(cs), max(cs))
+
+
+def fabsmax(a):
+    return max(abs(a[0]), abs(a[1]))
+
+
+def sin_cos_f(xlo, xhi):
+    """enclosures (Fractions, outward rounded to 2^-PREC) of sin and cos over the rational interval [xlo, xhi], width < 1:
+    evaluated at the midpoint and widened by the half width (|sin'|,|cos'| <= 1)"""
+    mid = (Fraction(xlo) + Fraction(xhi)) / 2
+    half = (Fraction(xhi) - Fraction(xlo)) / 2
+    s, c = sin_cos(iv(mid))
+    sl, sh = to_frac(s)
+    cl_, ch = to_frac(c)
+    return (sl - half, sh + half), (cl_ - half, ch + half)
